@@ -5,8 +5,10 @@ package query
 //verif:setup VerifC20Setup
 //verif:harness VerifC20Stable mode=bv tier=quick split=6
 //verif:harness VerifC20BlockedUpgrade mode=bv tier=quick
+//verif:harness VerifC20PathSpellings mode=bv tier=quick
 
 import (
+	"os"
 	"time"
 
 	"github.com/mithrandie/csvq/lib/parser"
@@ -154,6 +156,44 @@ func VerifC20BlockedUpgrade() {
 	_ = proc.AutoRollback()
 	_ = proc.ReleaseResourcesWithErrors()
 	verifAssert("no control files remain", verifFileList() == "t.csv")
+	verifObserveBool("end", true)
+	verifReach("end")
+}
+
+// The same table named in different ways - bare name, with extension, absolute, absolute with "./",
+// a doubled separator or "dir/../" - is one table: after the first read under one spelling, a read
+// under any other spelling in the same transaction returns the same loaded data although another
+// process has replaced the file meanwhile.
+func VerifC20PathSpellings() {
+	verifFileWrite("t.csv", "id,v\n1,a\n")
+	verifFileWrite("x/keep", "")
+	wd, _ := os.Getwd()
+	spell := []string{"t", "`t.csv`", "`" + wd + "/t.csv`", "`" + wd + "/./t.csv`", "`" + wd + "//t.csv`", "`" + wd + "/x/../t.csv`", "`./t.csv`"}
+	s1 := spell[verifChoice("first", len(spell))]
+	s2 := spell[verifChoice("second", len(spell))]
+	tx := verifNewTx()
+	tx.Flags.Quiet = true
+	proc := NewProcessor(tx)
+	read := func(name string) (string, bool) {
+		tx.SelectedViews = nil
+		_, err := proc.Execute(ContextForStoringResults(verifCtx()), verifParse("select v from "+name+";"))
+		if err != nil || len(tx.SelectedViews) != 1 || tx.SelectedViews[0].RecordLen() != 1 {
+			return "", false
+		}
+		v, ok := tx.SelectedViews[0].RecordSet[0][0][0].(*value.String)
+		if !ok {
+			return "", false
+		}
+		return v.Raw(), true
+	}
+	got, ok := read(s1)
+	verifAssert("first read", ok && got == "a")
+	verifFileWrite("t.csv", "id,v\n1,b\n") // another process commits
+	got, ok = read(s2)
+	verifAssert("second read", ok)
+	verifAssert("the other spelling names the same loaded table", got == "a")
+	_ = proc.AutoRollback()
+	_ = proc.ReleaseResourcesWithErrors()
 	verifObserveBool("end", true)
 	verifReach("end")
 }
